@@ -283,6 +283,7 @@ func c12flusher(c *Ctx) {
 			w = lib.NewFlusher(rec)
 		}
 		nw := 3 + c.Rng.Intn(25)
+		burst := it%3 == 1
 		var ws []flWrite
 		var hist []byte
 		var bounds = map[int]bool{0: true}
@@ -308,6 +309,9 @@ func c12flusher(c *Ctx) {
 			ws = append(ws, flWrite{st, n})
 			hist = append(hist, p...)
 			bounds[len(hist)] = true
+			if burst {
+				continue // back to back: a frame is often still buffered when the next one comes
+			}
 			switch c.Rng.Intn(6) {
 			case 0:
 				time.Sleep(2 * time.Millisecond)
